@@ -11,6 +11,7 @@ inductive Lang where | py | ts | rs
 
 inductive Member where
   | pub           -- ordinary public method
+  | asyncPub      -- public `async def` / `async m()` / `pub async fn`
   | priv          -- name starts with one underscore
   | dunder        -- __str__, __eq__ …
   | ctor          -- __init__ / constructor / fn new
@@ -25,6 +26,7 @@ inductive LineKind where | code | blank | comment
 /-- is the member counted as a public method?  (`_is_countable_method` per language) -/
 def countable : Lang → Member → Bool
   | _, .pub => true
+  | _, .asyncPub => true
   | _, .static => true
   | .py, .property => false      -- has_property_decorator
   | .ts, .property => true       -- a `get x()` accessor is a method_definition with a public name
